@@ -277,6 +277,10 @@ func main() {
 			rep.Violations = append(rep.Violations, Violation{Sig: *prop + "/encoding-clobbered",
 				Desc: "the bytes returned by an encoder changed when other values were encoded afterwards (shared buffer): " + jStr(rm["_clobbered_by"]), Op: opN, Res: res})
 		}
+		if msg := findMarker(res, "_inconsistent"); msg != "" {
+			// a decoder of the repository handed out less than the bytes hold: the monitors would judge a partial state
+			rep.Violations = append(rep.Violations, Violation{Sig: *prop + "/decoder-loses-data", Desc: msg, Op: opN, Res: res})
+		}
 		for _, m := range monitors[*prop] {
 			if rm, ok := res.(map[string]any); ok && jBool(rm["_clobbered"]) {
 				break // there is no result to judge
@@ -410,6 +414,28 @@ func finishRun(rep *report, prop, out *string, opsW, implW *bufio.Writer, opsF, 
 	}
 	sort.Strings(keys)
 	fmt.Printf("harness: prop=%s evaluations=%d distinct=%d nontrivial=%d violations=%d panics=%d\n", *prop, rep.Evaluations, rep.Distinct, rep.DistinctNontrivial, len(rep.Violations), rep.Panics)
+}
+
+// findMarker returns the first string stored under key anywhere in a result ("" if none)
+func findMarker(v any, key string) string {
+	switch t := v.(type) {
+	case map[string]any:
+		if s, ok := t[key].(string); ok && s != "" {
+			return s
+		}
+		for _, x := range t {
+			if s := findMarker(x, key); s != "" {
+				return s
+			}
+		}
+	case []any:
+		for _, x := range t {
+			if s := findMarker(x, key); s != "" {
+				return s
+			}
+		}
+	}
+	return ""
 }
 
 // stripPrivate removes keys starting with "_" or named panic_msg/stack (never compared with the model)
